@@ -109,6 +109,10 @@ def _case(i):
             elif kk < 0.3:
                 name, prog = 'reads', rng.choice([gen.tmpl_stack0, gen.tmpl_handover])(rng)
                 prog = prog + [(5, 1, 0, None)] + [(1, rng.choice([1, 2, 3]), 1, None)] * rng.randint(1, 4)
+            elif kk < 0.5:
+                # stack 0 as a data stack while it is the input buffer: own values, then commands / areas that pop more of them
+                # than there are (the optimiser and the interpreter must agree on where real input starts)
+                name, prog = 'tmpl:stack0_data', gen.tmpl_stack0_data(rng, area_share=0.7)
             else:
                 name, prog = gen.gen_case(rng, allow_input=True)
             text = P.render_text(rng, prog) or '형.'
@@ -222,7 +226,7 @@ def main(tier, seed):
     t0 = time.time()
     rep = C.Reporter(PID, tier, seed)
     C.build(['repo'])
-    n = 3000 if tier == 'quick' else 80000
+    n = 6000 if tier == 'quick' else 80000
     rundir = C.mktmp(PID)
     _RUN.update(tier=tier, seed=seed, dir=rundir, bin=C.HYEONG)
     results = C.pmap(_case, list(range(n)), chunksize=4, stop_after_bad=40,
